@@ -59,6 +59,9 @@ class NumExec:
         s.selfobj = selfobj
         s.call_hook = call_hook          # (exec, path, cls, kwargs, method, args) -> value | NotImplemented
         s.name_hook = name_hook
+        s.cur_cls = [selfobj.cls] if selfobj is not None else []
+        s.depth = 0
+        s.inlined = set()
         s.nonoblivious = []              # [(lineno, what)]
         s.safety = []                    # [(name, pc, goal)]
         s.notes = []
@@ -103,6 +106,25 @@ class NumExec:
         if isinstance(v, Obj):
             return z3.BoolVal(True)
         raise Unsupported(f"truthiness of {v!r} at line {node.lineno}")
+
+    def bind(s, fn, pos, kw, p=None, static=False):
+        """bind call arguments to the parameters of `fn` (defaults are evaluated from the AST); self is implicit"""
+        a = fn.args
+        names = [x.arg for x in a.posonlyargs + a.args][0 if static else 1:]
+        env = {} if static else {"self": s.selfobj}
+        defaults = dict(zip(names[len(names) - len(a.defaults):], a.defaults))
+        for i, nm in enumerate(names):
+            if i < len(pos):
+                env[nm] = pos[i]
+            elif nm in kw:
+                env[nm] = kw[nm]
+            elif nm in defaults:
+                env[nm] = s.ev(p or Path({}, []), defaults[nm])
+            else:
+                raise Unsupported(f"missing argument {nm} for {fn.name}")
+        for k, d in zip(a.kwonlyargs, a.kw_defaults):
+            env[k.arg] = kw[k.arg] if k.arg in kw else s.ev(p or Path({}, []), d)
+        return env
 
     # ------------------------------------------------------------------ running
     def run(s, fn, args, pc=()):
@@ -221,6 +243,8 @@ class NumExec:
             if e.attr == "pi":
                 return Num(X(xr.F, xr.I0, xr.PI), False, True)
             raise Unsupported(f"np.{e.attr} at line {e.lineno}")
+        if isinstance(e.value, ast.Name) and e.value.id == "settings" and e.value.id not in p.env:
+            return s.setting(e.attr, e)
         base = s.ev(p, e.value)
         if isinstance(base, Obj):
             flds = p.env.get("__self_fields__", base.fields) if base is s.selfobj else base.fields
@@ -331,6 +355,18 @@ class NumExec:
                 res = Bool(z3.And(res.b, c.b), res.data or c.data, res.py and c.py)
         return res
 
+    def setting(s, name, e):
+        """library settings: the default value read from the signature of library.Settings.__init__ (assumption A-SET:
+        numeric obligations are stated for the library's default settings)"""
+        fn = s.src.func("library", "Settings.__init__")
+        a = fn.args
+        names = [x.arg for x in a.args]
+        defaults = dict(zip(names[len(names) - len(a.defaults):], a.defaults))
+        if name in defaults and isinstance(defaults[name], ast.Constant) and isinstance(defaults[name].value, (int, float)):
+            s.notes.append(f"settings.{name} = {defaults[name].value} (library default)")
+            return defaults[name].value
+        raise Unsupported(f"settings.{name} at line {e.lineno}")
+
     # ------------------------------------------------------------------ calls
     def ev_Call(s, p, e):
         f = e.func
@@ -359,6 +395,38 @@ class NumExec:
             if name == "bool":
                 v = s.ev(p, e.args[0])
                 return Bool(s.truth(v, e), False, True)
+        # Op.<helper>(...): static helpers of fuzzylite.operation are executed in place (counted as verified code)
+        if isinstance(f, ast.Attribute) and isinstance(f.value, ast.Name) and f.value.id == "Op" and s.src.has_func("operation", f"Operation.{f.attr}"):
+            fn = s.src.func("operation", f"Operation.{f.attr}")
+            if s.depth > 4:
+                raise Unsupported(f"inlining depth at line {e.lineno}")
+            env = s.bind(fn, [s.ev(p, a) for a in e.args], {k.arg: s.ev(p, k.value) for k in e.keywords}, p, static=True)
+            s.depth += 1
+            outs = s.run(fn, env, pc=p.pc)
+            s.depth -= 1
+            if len(outs) != 1 or outs[0][0] != "return":
+                raise Unsupported(f"Op.{f.attr} with several outcomes at line {e.lineno}")
+            s.inlined.add(f"operation.Operation.{f.attr}")
+            return outs[0][1]
+        # super().__init__(...): executed in place (tiny constructors), resolved through the MRO read from the source
+        if (isinstance(f, ast.Attribute) and f.attr == "__init__" and isinstance(f.value, ast.Call)
+                and isinstance(f.value.func, ast.Name) and f.value.func.id == "super" and s.cur_cls):
+            mro = s.src.mro(s.selfobj.cls)
+            rest = mro[mro.index(s.cur_cls[-1]) + 1:]
+            for c in rest:
+                m = s.src.module_of_class(c)
+                if m and s.src.has_func(m, f"{c}.__init__"):
+                    fn = s.src.func(m, f"{c}.__init__")
+                    env = s.bind(fn, [s.ev(p, a) for a in e.args], {k.arg: s.ev(p, k.value) for k in e.keywords}, p)
+                    env["__self_fields__"] = p.env.get("__self_fields__", s.selfobj.fields)
+                    s.cur_cls.append(c)
+                    outs = s.run(fn, env, pc=p.pc)
+                    s.cur_cls.pop()
+                    if len(outs) != 1 or outs[0][0] != "return":
+                        raise Unsupported(f"super().__init__ with several outcomes at line {e.lineno}")
+                    p.env["__self_fields__"] = outs[0][2].env.get("__self_fields__")
+                    return None
+            return None
         # Cls(kw...).method(args)  and  obj.method(args): modular call through the hook
         if isinstance(f, ast.Attribute):
             if isinstance(f.value, ast.Call) and isinstance(f.value.func, ast.Name) and s.call_hook:
